@@ -1,14 +1,20 @@
 (* C01 Dependency gating: no launch before every depends_on condition is met.
    This file contains only the property statements; every proof is `exact <lemma>` or a vm_compute witness.
 
-   WHAT THE MONITOR CHECKS (Sup/Monitors.v, mon_C01 / holds_C01), in plain words.  The observer gives every
-   instance a creation index (o_idx, assigned at NewProcess = event ENewInst) and remembers per instance:
-   ended (onProcessEnd(status) was entered and that status was written), succeeded (ended and the reported
-   exit code of its name was 0 at some later moment), its ready line was seen, started (onProcessStart),
-   a stop was requested for it; and per process name: its health was Ready at some time.
-   At EVERY successful Commander.Start() (event ELaunch true) of an instance i, for EVERY dependency (k, c)
-   in the configuration of i's process:  let J be the instances of k created BEFORE i.  Either J is empty
-   (k was not scheduled when i was created), or some instance in J has met c:
+   WHAT THE MONITOR CHECKS (Sup/Monitors.v, mon_C01 / holds_C01), in plain words.  The observer remembers per
+   instance: registered (addRunningProcess, with a registration index in order of registration), ended
+   (onProcessEnd(status) was entered and that status was written), succeeded (ended and the reported exit code of
+   its name was 0 at some later moment), its ready line was seen, started (onProcessStart), a stop was requested
+   for it; per process name: its health was Ready at some time; and, per instance and dependency name, what the
+   dependent's lookup returned when it began to wait (trace point dep_wait): the instance found, or nothing
+   together with the registration counter at the moment its running-registry lookup missed.
+   At EVERY successful Commander.Start() (event ELaunch true) of an instance i, for EVERY dependency (k, c) in the
+   configuration of i's process:
+     - the lookup returned instance j: j is an instance of k and j has met c;
+     - the lookup found nothing: no instance of k had been registered when i looked into the running registry
+       (k was not scheduled to run), or one of those instances has met c;
+     - i never looked k up: the same, judged against every instance of k registered until the launch;
+   where "has met c" is
      process_completed              -> it ended
      process_completed_successfully -> it ended and the exit code reported for k was 0
      process_healthy                -> the health of k was Ready at some time
@@ -16,20 +22,16 @@
      process_started                -> it started, or a stop was requested for it, or it entered onProcessEnd.
    holds_C01 cs evs = true means this check succeeded at every launch in the history evs.
 
-   WHAT IS PROVED (hardened model: an instance is created, set Pending, registered, spawned and begun in program
-   order by ONE thread).  C01_main_partial: every history accepted by the model Sup (all configurations with
-   unique dependency names per process, all interleavings, unbounded length) satisfies the monitor, PROVIDED the
-   history avoids three scheduling patterns (decidable predicate sched_ok_C01, Sup/LemC01.v):
-     g_unreg : an instance of process n is created while an instance of a process that n DEPENDS ON is between
-               NewProcess and addRunningProcess (two creating requests race; impossible inside Run()'s loop);
-     g_newer : a dependent resolves a dependency name to an instance not older than itself although an older
-               instance of that name exists (the dependency was restarted between creation and lookup);
-     g_endov : a status write for an instance differs from the latest onProcessEnd entered for it while the
-               observer has not seen it end (two overlapping onProcessEnd executions);
-   in these the monitor, as written, is stricter than the code.  NO known-finding window flag (w_commit, w_dup,
-   w_zombie, ...) is needed.  C01_refuted / C01_refuted_newer_instance: without that hypothesis the statement
-   is false of the (hardened) model - machine-checked witnesses through none of the known windows.  The
-   witnesses of the earlier, looser model are now REJECTED by the model (Examples C01_old_witness_rejected and C01_old_witness_rejected_newer). *)
+   WHAT IS PROVED.  C01_main_partial: every history accepted by the model Sup (all configurations with unique
+   dependency names per process, all interleavings, unbounded length) satisfies the monitor, provided ONE
+   scheduling pattern does not occur (decidable predicate sched_ok_C01, Sup/LemC01.v, flag g_endov): a status
+   write for an instance that differs from the latest onProcessEnd entered for it while the observer has not seen
+   the instance end - two overlapping onProcessEnd executions (stop of a Pending process racing with its own
+   Skipped end); the observer has a single o_endst slot, so its "ended" lags behind the done flag of the code.
+   NO known-finding window flag is needed.  C01_refuted: without that hypothesis the statement is false of the
+   model (witness through none of the known windows; the property text is respected in it: the dependency did
+   end).  The two earlier side conditions (creation racing with registration; dependency restarted between
+   creation and lookup) are gone: the former witnesses now satisfy the monitor (Examples C01_former_witness_unregistered, C01_former_witness_newer_instance). *)
 From Coq Require Import List ZArith NArith Bool.
 From PC.Base Require Import Assoc.
 From PC.Sup Require Import Model Monitors Sim LemC01 RelC01.
@@ -38,7 +40,7 @@ Import ListNotations.
 Theorem C01_main_partial : forall cs ord evs s,
   wf_confs cs = true ->                      (* dependency names are unique within each process *)
   accept (init cs ord) evs = Some s ->       (* the history is a behaviour of the model *)
-  sched_ok_C01 cs evs = true ->              (* none of g_unreg / g_newer / g_endov happened *)
+  sched_ok_C01 cs evs = true ->              (* no overlapping onProcessEnd executions with different statuses (g_endov) *)
   holds_C01 cs evs = true.
 Proof. exact C01_main_partial_lemma. Qed.
 Print Assumptions C01_main_partial.
@@ -50,25 +52,33 @@ Theorem C01_declarative : forall cs ord evs s,
   let o := fold_left (obs_step cs) pre (obs0 cs) in                     (* (facts observed before it) *)
   forall i, get th (o_th o) = Some i ->                                 (* ... of instance i ... *)
   let x := oi_get o i in
-  forall k c, In (k, c) (deps (conf_of cs (o_nm x))) ->                 (* ... for every dependency (k, c) *)
-  older_insts o k (o_idx x) = [] \/                                     (* no instance of k was created before i, or *)
-  exists y, In y (older_insts o k (o_idx x)) /\ met o c y = true.       (* one of them has met c *)
+  forall k c, In (k, c) (deps (conf_of cs (o_nm x))) ->                 (* ... for every dependency (k, c): *)
+  dep_ok o x k c.     (* RelC01.dep_ok: the instance found has met c / nothing was registered (or one of them met c) *)
 Proof. exact C01_declarative_lemma. Qed.
 Print Assumptions C01_declarative.
 
 (* ---- the hypothesis sched_ok_C01 is needed: the unrestricted statement is false of the model ---------------- *)
 Definition conf0 (ds : list (name * cond)) : pconf := mkConf ds PNo 0 0 false false false false false false false.
-(* process 1 is disabled (started on request), process 2 depends on process 1 *)
-Definition cs_ref : amap pconf :=
-  [(1%N, mkConf [] PNo 0 0 false false false false false false true); (2%N, conf0 [(1%N, CCompleted)])].
-(* StartProcess(1) (thread 7) has created instance 10 but not yet registered it when Run() (thread 0) creates,
-   registers and spawns instance 20 of process 2; 20 looks process 1 up, finds nothing and launches *)
+(* process 2 needs process 1 to succeed, process 3 needs process 2 to complete.  Process 1 exits with 1, so 2 decides
+   to skip; StopProcess(2) (thread 7) finds 2 still Pending and enters onProcessEnd(Terminating) between 2's own
+   onProcessEnd(Skipped) entry and its status write: that write sets the done flag of the code (3 is released and
+   launches), but the observer, whose single o_endst slot now says Terminating, does not count 2 as ended *)
+Definition cs_ref : amap pconf := [(1%N, conf0 []); (2%N, conf0 [(1%N, CSuccess)]); (3%N, conf0 [(2%N, CCompleted)])].
 Definition evs_ref : list (tid * event) :=
-  [ (7, EApiBegin (OpStart 1)); (7, ERegGet 1 None); (7, EStartChecked 1 false); (7, ENewInst 10 1);
-    (0, EApiBegin OpRun); (0, ENewInst 20 2); (0, EState 20 SPending); (0, ERegAdd 20 2); (0, ESpawn 20 2);
-    (0, ERunSpawned);
-    (5, EBegin 20); (5, EDoneGet 1 None); (5, ELookupMid 1); (5, ERegGet 1 None); (5, EDoneGet 1 None);
-    (5, EDepWait 1 None); (5, ERunChecked false); (5, EStarted); (5, EState 20 SRunning); (5, ELaunch true) ]%N.
+  [ (0, EApiBegin OpRun);
+    (0, ENewInst 10 1); (0, EState 10 SPending); (0, ERegAdd 10 1); (0, ESpawn 10 1);
+    (0, ENewInst 20 2); (0, EState 20 SPending); (0, ERegAdd 20 2); (0, ESpawn 20 2);
+    (0, ENewInst 30 3); (0, EState 30 SPending); (0, ERegAdd 30 3); (0, ESpawn 30 3); (0, ERunSpawned);
+    (1, EBegin 10); (1, ERunChecked false); (1, EStarted); (1, EState 10 SRunning); (1, ELaunch true);
+    (2, EBegin 20); (2, EDoneGet 1 None); (2, ELookupMid 1); (2, ERegGet 1 (Some 10)); (2, EDepWait 1 (Some 10));
+    (3, EBegin 30); (3, EDoneGet 2 None); (3, ELookupMid 2); (3, ERegGet 2 (Some 20)); (3, EDepWait 2 (Some 20));
+    (9, ECmdExit 10 1%Z); (1, EWaitReturn 1%Z); (1, EExitCode 1%Z); (1, ERestartDecision false);
+    (1, EProcEnd 10 SCompleted); (1, EState 10 SCompleted);
+    (2, EDepDone 1 false); (2, ESkip);
+    (7, EApiBegin (OpStop 2)); (7, ERegGet 2 (Some 20)); (7, EStopChecked 2 (Some 20)); (7, ENoRestart 20);
+    (7, EStopEnter 20 true); (7, EStopPending 20);
+    (2, EProcEnd 20 SSkipped); (7, EProcEnd 20 STerminating); (2, EState 20 SSkipped);
+    (3, EDepDone 2 true); (3, ERunChecked false); (3, EStarted); (3, EState 30 SRunning); (3, ELaunch true) ]%N.
 
 Theorem C01_refuted : exists cs ord evs s,
   wf_confs cs = true /\ accept (init cs ord) evs = Some s /\ no_windows cs evs = true /\ holds_C01 cs evs = false.
@@ -79,27 +89,33 @@ Proof.
 Qed.
 Print Assumptions C01_refuted.
 
-(* ... and that history is one that the hypothesis excludes (only g_unreg is set) *)
-Example C01_refuted_excluded : snd (og_final cs_ref evs_ref) = mkG [10%N] true false false.
+(* ... and that history is one that the hypothesis excludes *)
+Example C01_refuted_excluded : sched_ok_C01 cs_ref evs_ref = false.
 Proof. vm_compute. reflexivity. Qed.
 
-(* the witness of the earlier model (one thread without any API call creating both instances, a goroutine that
-   begins without having been registered and spawned) is no longer a behaviour of the model *)
-Definition evs_ref_old : list (tid * event) :=
-  [ (0, ENewInst 10 1); (0, ENewInst 20 2); (5, EBegin 20);
-    (5, EDoneGet 1 None); (5, ELookupMid 1); (5, ERegGet 1 None); (5, EDoneGet 1 None); (5, EDepWait 1 None);
-    (5, ERunChecked false); (5, EStarted); (5, EState 20 SRunning); (5, ELaunch true) ]%N.
-Example C01_old_witness_rejected :
-  accept (init cs_ref false) evs_ref_old = None /\ fst (accept_prefix (init cs_ref false) evs_ref_old 0) = 0.
-Proof. vm_compute. split; reflexivity. Qed.
+(* ---- the witnesses of the two former side conditions now SATISFY the monitor --------------------------------- *)
+(* (former g_unreg) StartProcess(1) has created but not yet registered instance 10 while Run() creates, registers and
+   begins instance 20 of process 2, which depends on process 1, finds nothing and launches: an instance that is
+   not registered is not "registered before" anybody *)
+Definition cs_unreg : amap pconf :=
+  [(1%N, mkConf [] PNo 0 0 false false false false false false true); (2%N, conf0 [(1%N, CCompleted)])].
+Definition evs_unreg : list (tid * event) :=
+  [ (7, EApiBegin (OpStart 1)); (7, ERegGet 1 None); (7, EStartChecked 1 false); (7, ENewInst 10 1);
+    (0, EApiBegin OpRun); (0, ENewInst 20 2); (0, EState 20 SPending); (0, ERegAdd 20 2); (0, ESpawn 20 2);
+    (0, ERunSpawned);
+    (5, EBegin 20); (5, EDoneGet 1 None); (5, ELookupMid 1); (5, ERegGet 1 None); (5, EDoneGet 1 None);
+    (5, EDepWait 1 None); (5, ERunChecked false); (5, EStarted); (5, EState 20 SRunning); (5, ELaunch true) ]%N.
+Example C01_former_witness_unregistered :
+  (exists s, accept (init cs_unreg false) evs_unreg = Some s) /\ sched_ok_C01 cs_unreg evs_unreg = true /\
+  holds_C01 cs_unreg evs_unreg = true.
+Proof.
+  split; [|split; vm_compute; reflexivity].
+  destruct (accept (init cs_unreg false) evs_unreg) as [s|] eqn:E; [eauto|vm_compute in E; discriminate E].
+Qed.
 
-(* Second witness (finding): the dependency is RESTARTED between the creation of the dependent and its lookup.
-   Process 2 depends on process 1 with process_log_ready.  Run() starts both; instance 10 of process 1 completes
-   without ever printing its ready line and is deregistered; StartProcess(1) starts it again as instance 11;
-   instance 20 of process 2 (created between 10 and 11) resolves process 1 to the NEWER instance 11, waits for
-   11's ready line and launches.  The property text is respected (process 1 did print its ready line before the
-   launch), but mon_C01 only accepts instances created before 20 and fails; no known window is involved.  This
-   is the pattern g_newer. *)
+(* (former g_newer) process 1 ends without its ready line and is started again as instance 11 between the creation of
+   dependent 20 (process_log_ready) and 20's lookup; 20 waits for 11's ready line and launches: the monitor now
+   judges the instance the lookup returned *)
 Definition cs_new : amap pconf :=
   [(1%N, mkConf [] PNo 0 0 false false false true false false false); (2%N, conf0 [(1%N, CLogReady)])].
 Definition evs_new : list (tid * event) :=
@@ -117,39 +133,21 @@ Definition evs_new : list (tid * event) :=
     (2, ERegGet 1 (Some 11)); (2, EDepWait 1 (Some 11));
     (9, EOutLine 11 true); (9, ELogReady 11);
     (2, EDepDone 1 true); (2, ERunChecked false); (2, EStarted); (2, EState 20 SRunning); (2, ELaunch true) ]%N.
-
-Theorem C01_refuted_newer_instance :
-  wf_confs cs_new = true /\ (exists s, accept (init cs_new false) evs_new = Some s) /\
-  no_windows cs_new evs_new = true /\ holds_C01 cs_new evs_new = false /\
-  snd (og_final cs_new evs_new) = mkG [] false true false.      (* only g_newer is set *)
+Example C01_former_witness_newer_instance :
+  (exists s, accept (init cs_new false) evs_new = Some s) /\ sched_ok_C01 cs_new evs_new = true /\
+  holds_C01 cs_new evs_new = true.
 Proof.
-  split; [vm_compute; reflexivity|]. split.
-  - destruct (accept (init cs_new false) evs_new) as [s|] eqn:E; [eauto|vm_compute in E; discriminate E].
-  - repeat split; vm_compute; reflexivity.
+  split; [|split; vm_compute; reflexivity].
+  destruct (accept (init cs_new false) evs_new) as [s|] eqn:E; [eauto|vm_compute in E; discriminate E].
 Qed.
-Print Assumptions C01_refuted_newer_instance.
 
-(* the earlier version of this witness (instances created by a thread that is in no API call) is rejected at
-   its first event *)
-Example C01_old_witness_rejected_newer :
-  accept (init cs_new false) ((0, ENewInst 10 1) :: (0, EState 10 SPending) :: (0, ERegAdd 10 1) :: (1, EBegin 10) :: nil)%N = None.
-Proof. vm_compute. reflexivity. Qed.
-
-(* creations of UNRELATED processes may overlap without leaving the hypothesis (the earlier, coarser g_unreg
-   excluded this history): StartProcess(1) has created instance 10 while Run() creates and launches process 3 *)
-Definition cs_ovl : amap pconf := [(1%N, mkConf [] PNo 0 0 false false false false false false true); (3%N, conf0 [])].
-Definition evs_ovl : list (tid * event) :=
-  [ (7, EApiBegin (OpStart 1)); (7, ERegGet 1 None); (7, EStartChecked 1 false); (7, ENewInst 10 1);
-    (0, EApiBegin OpRun); (0, ENewInst 30 3); (0, EState 30 SPending); (0, ERegAdd 30 3); (0, ESpawn 30 3);
-    (0, ERunSpawned);
-    (5, EBegin 30); (5, ERunChecked false); (5, EStarted); (5, EState 30 SRunning); (5, ELaunch true);
-    (7, EState 10 SPending); (7, ERegAdd 10 1); (7, ESpawn 10 1); (7, EApiReturn true) ]%N.
-Example C01_example_overlapping_creations :
-  (exists s, accept (init cs_ovl false) evs_ovl = Some s) /\ sched_ok_C01 cs_ovl evs_ovl = true.
-Proof.
-  split; [|vm_compute; reflexivity].
-  destruct (accept (init cs_ovl false) evs_ovl) as [s|] eqn:E; [eauto|vm_compute in E; discriminate E].
-Qed.
+(* the monitor is still an oracle: the same history with the ready line of instance 11 removed (the dependent is
+   released although the instance it waits on never printed its line) is rejected by the model AND fails the monitor *)
+Definition evs_new_bad : list (tid * event) :=
+  filter (fun te => match snd te with EOutLine _ _ | ELogReady _ => false | _ => true end) evs_new.
+Example C01_monitor_still_rejects :
+  accept (init cs_new false) evs_new_bad = None /\ holds_C01 cs_new evs_new_bad = false.
+Proof. vm_compute. split; reflexivity. Qed.
 
 (* ---- non-vacuity: a 31-event accepted history that meets all hypotheses; process 2 waits for process 1 to
    complete, process 1 runs and exits with 0, then process 2 is released and launches ------------------------------ *)
